@@ -42,6 +42,25 @@ class Hooks:
         return not (self.prefixes and fn.path.startswith(self.prefixes))
 
 
+# The vocabulary of the evaluation layer: functions that the specifications mention by name and that therefore stay opaque when
+# another function of the layer is summarised.  Every other function under evaluation:: is a helper and is inlined, whichever
+# module it lives in (so a helper extracted into, or shared from, a sibling module changes nothing).
+VOCAB = ("algorithm::eval_node", "algorithm::compute_attractor_states", "algorithm::compute_steady_states",
+         "canonization::get_canonical_and_renaming", "canonization::get_canonical", "canonization::canonize_subform",
+         "mark_duplicates::mark_duplicates_canonized_multiple", "mark_duplicates::mark_duplicates_canonized_single",
+         "low_level_operations::create_comparator_var_state", "low_level_operations::create_comparator_two_vars", "low_level_operations::create_equalizer",
+         "low_level_operations::project_out_hctl_var", "low_level_operations::project_out_bn_vars", "low_level_operations::substitute_hctl_var",
+         "low_level_operations::compute_valid_domain_for_var", "low_level_operations::restrict_stg_unit_bdd",
+         "eval_context::EvalContext::from_single_tree", "eval_context::EvalContext::from_multiple_trees", "eval_context::EvalContext::new",
+         "eval_context::EvalContext::extend_context_with_wild_cards")
+
+
+def eval_hooks(opaque_extra=(), transparent=()):
+    """Inline every helper of the evaluation layer; keep its vocabulary opaque (minus `transparent`)."""
+    names = ["evaluation::" + v for v in VOCAB if v not in transparent] + list(opaque_extra)
+    return Hooks(["evaluation::"], opaque_names=names)
+
+
 def node_term(shape):
     """Constructor term of an HctlTreeNode with the given node_type term."""
     return ("struct", TREE, (("formula_str", ("param", "#formula_str")), ("height", ("param", "#height")),
@@ -85,8 +104,7 @@ class EvalNode:
         self.fn = prog.lib_fn(ALG + "eval_node")
         # helpers of the algorithm module (pattern recognisers, quantifier wrapper, anything a refactoring extracts)
         # are inlined; the recursion itself and the two library-heavy shortcut computations stay opaque
-        self.hooks = Hooks([OPS, ALG], opaque_names=[ALG + "eval_node", ALG + "compute_attractor_states",
-                                                     ALG + "compute_steady_states"])
+        self.hooks = eval_hooks()
         self.engine = terms.Engine(prog, inline=True, hooks=self.hooks)
         self.summ = self.engine.summary(self.fn) if self.fn else None
         self.params = self.fn.param_names() if self.fn else []
